@@ -221,20 +221,24 @@ def r3_logs(text, log):
 # R6 configuration constants: `*NAME` -> `NAME()`
 
 def r6_config(text, names, log):
+    """`*NAME` -> `NAME()` in executable code, `spec_NAME()` inside a proof `assert(..)` produced by R2"""
     if not names:
         return text
     st = sig(lex(text))
     edits = []
     n = 0
+    # token index ranges that are inside `assert ( ... )`
+    spec_ranges = []
+    for i, t in enumerate(st):
+        if t.kind == "ident" and t.text == "assert" and i + 1 < len(st) and st[i + 1].text == "(" and (i == 0 or st[i - 1].text != "!"):
+            spec_ranges.append((i + 1, match_close(st, i + 1)))
     for i, t in enumerate(st):
         if t.text == "*" and i + 1 < len(st) and st[i + 1].kind == "ident" and st[i + 1].text in names:
-            # must be a unary deref: previous token is not an operand end
             prev = st[i - 1] if i > 0 else None
             if prev is not None and (prev.kind in ("ident", "num") and prev.text not in ("return", "in", "as", "if", "else", "match") or prev.text in (")", "]")):
-                # binary multiplication `a * NAME` with NAME a Deref static: `a * *NAME` is what the code would say; a
-                # single star after an operand is multiplication by the static itself, which does not type-check
                 continue
-            edits.append((t.start, st[i + 1].end, "%s()" % st[i + 1].text))
+            in_spec = any(a < i < b for a, b in spec_ranges)
+            edits.append((t.start, st[i + 1].end, ("spec_%s()" if in_spec else "%s()") % st[i + 1].text))
             n += 1
     if n:
         log["R6 config-constant"] = log.get("R6 config-constant", 0) + n
@@ -383,7 +387,7 @@ def r13_name_ret(text, name, log):
             continue
         if t.text == "-" and j + 1 < len(st) and st[j + 1].text == ">":
             arrow = j
-        if t.text == "{" or (t.kind == "ident" and t.text == "where"):
+        if t.text in ("{", ";") or (t.kind == "ident" and t.text == "where"):
             break
         j += 1
     if arrow is None:
@@ -417,4 +421,280 @@ def r14_mut_self(text, log):
         if st[k].kind == "ident" and st[k].text == "self":
             edits.append((st[k].start, st[k].end, "vx_self"))
     log["R14 mut-self"] = log.get("R14 mut-self", 0) + 1
+    return apply_edits(text, edits)
+
+
+# ------------------------------------------------------------------------------------------------------------------
+# R4b/R4e/R4f/R4g: `for` loops over arrays / slices become `while` loops over an index (Verus for-loops have no
+# `continue`, no array IntoIter, no ref patterns).  The element binding and the index increment are the first statements
+# of the body, so `continue` and `break` inside B keep their meaning.
+
+def _fresh(text, base):
+    k = 1
+    while "%s%d" % (base, k) in text:
+        k += 1
+    return "%s%d" % (base, k)
+
+
+def _for_loops(st):
+    for i, t in enumerate(st):
+        if t.kind == "ident" and t.text == "for" and (i == 0 or st[i - 1].text not in ("impl", "<", ",")):
+            try:
+                in_idx, b = _stmt_for_header(st, i)
+            except RewriteError:
+                continue
+            if in_idx is None:
+                continue
+            yield i, in_idx, b
+
+
+def r4b_array_for(text, log):
+    """for x in [a, b, ..] { B }  ->  { let vx_arr = [a, b, ..]; let mut vx_n = 0; while vx_n < N { let x = vx_arr[vx_n]; vx_n += 1; B } }"""
+    while True:
+        st = sig(lex(text))
+        done = True
+        for i, in_idx, b in _for_loops(st):
+            if st[in_idx + 1].text != "[" or match_close(st, in_idx + 1) != b - 1:
+                continue
+            args = split_args(st, in_idx + 1, b - 1)
+            pat = span_text(text, st, i + 1, in_idx)
+            arr = text[st[in_idx + 1].start:st[b - 1].end]
+            c = match_close(st, b)
+            n = _fresh(text, "vx_n")
+            a = _fresh(text, "vx_arr")
+            body = text[st[b].end:st[c].start]
+            new = "{ let %s = %s; let mut %s = 0; while %s < %d { let %s = %s[%s]; %s += 1; %s} }" % (a, arr, n, n, len(args), pat, a, n, n, body)
+            text = text[:st[i].start] + new + text[st[c].end:]
+            log["R4b array-for -> while"] = log.get("R4b array-for -> while", 0) + 1
+            done = False
+            break
+        if done:
+            return text
+
+
+def _tail_is(st, b, pat):
+    return [x.text for x in st[b - len(pat):b]] == pat
+
+
+def r4e_enumerate_skip(text, log):
+    """for (i, x) in E.iter().enumerate().skip(K) { B } -> { let mut vx_n = K; while vx_n < E.len() { let i = vx_n; let x = &E[i]; vx_n += 1; B } }
+    (also without .skip: K = 0)"""
+    while True:
+        st = sig(lex(text))
+        done = True
+        for i, in_idx, b in _for_loops(st):
+            if st[i + 1].text != "(":
+                continue
+            pc = match_close(st, i + 1)
+            if pc + 1 != in_idx:
+                continue
+            pat = split_args(st, i + 1, pc)
+            if len(pat) != 2:
+                continue
+            k_txt = "0"
+            e_end = None
+            if st[b - 1].text == ")" and True:
+                # find `.skip(` ... `)` at the tail
+                o = None
+                depth = 0
+                for j in range(b - 1, in_idx, -1):
+                    if st[j].text == ")":
+                        depth += 1
+                    elif st[j].text == "(":
+                        depth -= 1
+                        if depth == 0:
+                            o = j
+                            break
+                if o is not None and st[o - 1].text == "skip" and st[o - 2].text == "." and _tail_is(st, o - 2, [".", "iter", "(", ")", ".", "enumerate", "(", ")"]):
+                    k_txt = span_text(text, st, o + 1, b - 1)
+                    e_end = o - 2 - 8
+                elif _tail_is(st, b, [".", "iter", "(", ")", ".", "enumerate", "(", ")"]):
+                    e_end = b - 8
+            if e_end is None:
+                continue
+            e_txt = span_text(text, st, in_idx + 1, e_end)
+            iv = span_text(text, st, *pat[0])
+            xv = span_text(text, st, *pat[1])
+            c = match_close(st, b)
+            n = _fresh(text, "vx_n")
+            body = text[st[b].end:st[c].start]
+            new = "{ let mut %s = %s; while %s < %s.len() { let %s = %s; let %s = &%s[%s]; %s += 1; %s} }" % (n, k_txt, n, e_txt, iv, n, xv, e_txt, iv, n, body)
+            text = text[:st[i].start] + new + text[st[c].end:]
+            log["R4e enumerate[.skip] -> while"] = log.get("R4e enumerate[.skip] -> while", 0) + 1
+            done = False
+            break
+        if done:
+            return text
+
+
+def r4f_iter_for(text, log):
+    """for &x in E.iter() { B }  -> index while loop with `let x = E[n];`
+       for x in E.iter() { B } / for x in &E { B } -> index while loop with `let x = &E[n];`"""
+    while True:
+        st = sig(lex(text))
+        done = True
+        for i, in_idx, b in _for_loops(st):
+            deref = False
+            if st[i + 1].text == "&" and in_idx == i + 3:
+                deref = True
+                xv = st[i + 2].text
+            elif in_idx == i + 2 and st[i + 1].kind == "ident":
+                xv = st[i + 1].text
+            else:
+                continue
+            if _tail_is(st, b, [".", "iter", "(", ")"]):
+                e_txt = span_text(text, st, in_idx + 1, b - 4)
+            elif st[in_idx + 1].text == "&" and st[in_idx + 2].text != "mut":
+                e_txt = span_text(text, st, in_idx + 2, b)
+            else:
+                continue
+            if not e_txt or ".." in e_txt:
+                continue
+            c = match_close(st, b)
+            n = _fresh(text, "vx_n")
+            body = text[st[b].end:st[c].start]
+            bind = "let %s = %s[%s];" % (xv, e_txt, n) if deref else "let %s = &%s[%s];" % (xv, e_txt, n)
+            new = "{ let mut %s = 0; while %s < %s.len() { %s %s += 1; %s} }" % (n, n, e_txt, bind, n, body)
+            text = text[:st[i].start] + new + text[st[c].end:]
+            log["R4f iter-for -> while"] = log.get("R4f iter-for -> while", 0) + 1
+            done = False
+            break
+        if done:
+            return text
+
+
+def r4g_slice_for(text, log):
+    """for x in S { B }  where S is a plain identifier naming a `&[T]` (enable per item only where that is the case)
+       -> { let mut vx_n = 0; while vx_n < S.len() { let x = &S[vx_n]; vx_n += 1; B } }"""
+    while True:
+        st = sig(lex(text))
+        done = True
+        for i, in_idx, b in _for_loops(st):
+            if in_idx != i + 2 or b != in_idx + 2 or st[i + 1].kind != "ident" or st[in_idx + 1].kind != "ident":
+                continue
+            xv = st[i + 1].text
+            e_txt = st[in_idx + 1].text
+            c = match_close(st, b)
+            n = _fresh(text, "vx_n")
+            body = text[st[b].end:st[c].start]
+            new = "{ let mut %s = 0; while %s < %s.len() { let %s = &%s[%s]; %s += 1; %s} }" % (n, n, e_txt, xv, e_txt, n, n, body)
+            text = text[:st[i].start] + new + text[st[c].end:]
+            log["R4g slice-for -> while"] = log.get("R4g slice-for -> while", 0) + 1
+            done = False
+            break
+        if done:
+            return text
+
+
+# ------------------------------------------------------------------------------------------------------------------
+# R15: `#[cfg(test)] <field-init or statement>` is dropped, `#[cfg(not(test))]` is resolved to the plain item
+# (the verified text is the non-test build).
+
+def r15_cfg_test(text, log):
+    while True:
+        st = sig(lex(text))
+        hits = find_seq(st, ["#", "[", "cfg", "(", "test", ")", "]"])
+        if not hits:
+            break
+        i = hits[0]
+        # the attributed thing ends at the next `,` or `;` at depth 0, or at a matching brace block
+        j = i + 7
+        end = None
+        while j < len(st):
+            t = st[j]
+            if t.kind == "punct" and t.text in "([{":
+                c = match_close(st, j)
+                if t.text == "{":
+                    end = c
+                    # a block item: `fn .. { }` or `mod .. { }` ends here unless followed by `,`/`;`
+                    if c + 1 < len(st) and st[c + 1].text in (",", ";"):
+                        end = c + 1
+                    break
+                j = c + 1
+                continue
+            if t.text in (",", ";"):
+                end = j
+                break
+            if t.text in (")", "]", "}"):
+                end = j - 1
+                break
+            j += 1
+        if end is None:
+            raise RewriteError("R15: cannot find the end of a #[cfg(test)] item")
+        text = text[:st[i].start] + text[st[end].end:]
+        log["R15 cfg(test) item dropped"] = log.get("R15 cfg(test) item dropped", 0) + 1
+    st = sig(lex(text))
+    edits = []
+    for i in find_seq(st, ["#", "[", "cfg", "(", "not", "(", "test", ")", ")", "]"]):
+        edits.append((st[i].start, st[i + 9].end, ""))
+        log["R15 cfg(not(test)) resolved"] = log.get("R15 cfg(not(test)) resolved", 0) + 1
+    return apply_edits(text, edits)
+
+
+# ------------------------------------------------------------------------------------------------------------------
+# R12 generic narrowing: `fn new<I: TryInto<u32> ..>(.. x: I ..) where .. { .. x.try_into().unwrap() .. }` is specified at
+# the instantiation I = usize: generics and where clause dropped, `I` -> usize, `E.try_into().unwrap()` -> `vx_usize_to_u32(E)`
+# whose precondition `E <= u32::MAX` turns the possible panic into a proof obligation at every call site.
+
+def r12_tryinto_usize(text, log):
+    st = sig(lex(text))
+    # locate fn name and generic list
+    try:
+        f = next(i for i, t in enumerate(st) if t.kind == "ident" and t.text == "fn")
+    except StopIteration:
+        return text
+    if st[f + 2].text != "<":
+        return text
+    depth = 0
+    j = f + 2
+    while j < len(st):
+        if st[j].text == "<":
+            depth += 1
+        elif st[j].text == ">" and st[j - 1].text != "-":
+            depth -= 1
+            if depth == 0:
+                break
+        j += 1
+    gen_toks = st[f + 3:j]
+    names = []
+    k = 0
+    expect_name = True
+    d2 = 0
+    for t in gen_toks:
+        if t.text in "<(":
+            d2 += 1
+        elif t.text in ">)":
+            d2 -= 1
+        elif t.text == "," and d2 == 0:
+            expect_name = True
+            continue
+        if expect_name and t.kind == "ident":
+            names.append(t.text)
+            expect_name = False
+    gtxt = " ".join(t.text for t in gen_toks)
+    if "TryInto < u32 >" not in gtxt:
+        return text
+    edits = [(st[f + 2].start, st[j].end, "")]
+    # where clause: from `where` to body `{`
+    w = None
+    for i in range(j, len(st)):
+        if st[i].kind == "punct" and st[i].text == "(":
+            pass
+        if st[i].kind == "ident" and st[i].text == "where":
+            w = i
+        if st[i].text == "{":
+            if w is not None:
+                edits.append((st[w].start, st[i].start, ""))
+            body_open = i
+            break
+    for i in range(j, len(st)):
+        if st[i].kind == "ident" and st[i].text in names and (w is None or not (w <= i < body_open)):
+            edits.append((st[i].start, st[i].end, "usize"))
+    # E.try_into().unwrap()  where E is a single identifier
+    for i in find_seq(st, [".", "try_into", "(", ")", ".", "unwrap", "(", ")"]):
+        e = st[i - 1]
+        if e.kind != "ident":
+            raise RewriteError("R12: try_into receiver is not an identifier")
+        edits.append((e.start, st[i + 7].end, "vx_usize_to_u32(%s)" % e.text))
+    log["R12 generic-narrowing (TryInto<u32> at usize)"] = log.get("R12 generic-narrowing (TryInto<u32> at usize)", 0) + 1
     return apply_edits(text, edits)
